@@ -145,7 +145,7 @@ func (g listGenerator) EmitNodeTypeAssertions(w io.Writer) {
 func (g listGenerator) EmitNodeMethodLookupByIndex(w io.Writer) {
 	doTemplate(`
 		func (n {{ .Type | TypeSymbol }}) LookupByIndex(idx int64) (datamodel.Node, error) {
-			if n.Length() <= idx {
+			if idx < 0 || n.Length() <= idx {
 				return nil, datamodel.ErrNotExists{Segment: datamodel.PathSegmentOfInt(idx)}
 			}
 			v := &n.x[idx]
